@@ -16,6 +16,7 @@ import (
 	"os"
 	"sort"
 	"strings"
+	"syscall"
 
 	"github.com/spf13/afero"
 
@@ -39,9 +40,18 @@ type limitsSpec struct {
 	Recursive bool   `json:"recursive"`
 }
 
+// faultSpec: one of the extraction's OWN back-end operations fails (EPERM), once or from then on.
+type faultSpec struct {
+	Op         string `json:"op"`             // Remove | MkdirAll | OpenFile | Open | f.Write | f.Read | f.Close | Chtimes
+	K          int    `json:"k"`              // the k-th such operation at or below the destination (1-based)
+	Persistent bool   `json:"persistent"`     // ... and every later one
+	Path       string `json:"path,omitempty"` // only operations on this path (relative to the destination)
+}
+
 type scenario struct {
 	Archive archiveSpec `json:"archive"`
 	Limits  limitsSpec  `json:"limits"`
+	Fault   *faultSpec  `json:"fault,omitempty"`
 	Note    string      `json:"note,omitempty"`
 }
 
@@ -57,13 +67,15 @@ type writeObs struct {
 }
 
 type observation struct {
-	Kind     string     `json:"kind"` // ok | toolarge | other
-	Err      string     `json:"err,omitempty"`
-	Listed   int        `json:"listed"`
-	Files    []fileObs  `json:"files"`
-	DirDepth int        `json:"max_dir_depth"` // deepest directory below the destination, -1 if none
-	Writes   []writeObs `json:"writes"`        // one per truncating open, in order
-	Handles  int64      `json:"open_handles"`
+	Kind     string         `json:"kind"` // ok | toolarge | other
+	Err      string         `json:"err,omitempty"`
+	Listed   int            `json:"listed"`
+	Files    []fileObs      `json:"files"`
+	DirDepth int            `json:"max_dir_depth"` // deepest directory below the destination, -1 if none
+	Writes   []writeObs     `json:"writes"`        // one per truncating open, in order
+	Handles  int64          `json:"open_handles"`
+	Faulted  int            `json:"faulted_ops"` // how many operations the fault made fail
+	OpCount  map[string]int `json:"-"`           // operations of each kind at or below the destination
 }
 
 func errKind(err error) string {
@@ -88,9 +100,32 @@ func execute(sc *scenario, ba *builtArchive) observation {
 	_ = inner.MkdirAll("/out", 0o755)
 	_ = afero.WriteFile(inner, srcPath, ba.bytes, 0o644)
 	sh.ResetLog()
+	opCount := map[string]int{}
+	faulted := 0
+	sh.SetHook(func(op *shim.Op) error {
+		if op.Path != dstPath && !strings.HasPrefix(op.Path, dstPath+"/") {
+			return nil
+		}
+		opCount[op.Name]++
+		f := sc.Fault
+		if f == nil || op.Name != f.Op || (f.Path != "" && op.Path != dstPath+"/"+f.Path) {
+			return nil
+		}
+		n := opCount[op.Name]
+		if f.Path != "" {
+			opCount["@"+op.Name]++
+			n = opCount["@"+op.Name]
+		}
+		if n == f.K || (f.Persistent && n >= f.K) {
+			faulted++
+			return &os.PathError{Op: strings.ToLower(op.Name), Path: op.Path, Err: syscall.EPERM}
+		}
+		return nil
+	})
 	lim := filesystem.NewLimits(sc.Limits.MaxFile, sc.Limits.MaxTotal, sc.Limits.MaxCount, sc.Limits.MaxDepth, sc.Limits.Recursive)
 	list, err := fs.UnzipWithContextAndLimits(context.Background(), srcPath, dstPath, lim)
-	o := observation{Kind: errKind(err), Listed: len(list), DirDepth: -1, Handles: sh.OpenHandles()}
+	sh.SetHook(nil)
+	o := observation{Kind: errKind(err), Listed: len(list), DirDepth: -1, Handles: sh.OpenHandles(), Faulted: faulted, OpCount: opCount}
 	if err != nil {
 		o.Err = err.Error()
 		if len(o.Err) > 300 {
@@ -148,8 +183,8 @@ func coqEntries(es []*builtEntry) string {
 		if e.nested != nil && e.body == "goodzip" {
 			nested = coqEntries(e.nested.entries)
 		}
-		ts[i] = fmt.Sprintf("(EFile %d %s %s %d %s %s %s %s)", e.depth, h.Bool(e.zipname), new(big.Int).SetUint64(e.declared).String(),
-			e.actual, h.Bool(e.crcOK), h.Bool(e.openable), body, nested)
+		ts[i] = fmt.Sprintf("(EFile %d %s %s %d %s %s %s %s %s)", e.depth, h.Bool(e.zipname), new(big.Int).SetUint64(e.declared).String(),
+			e.actual, h.Bool(e.crcOK), h.Bool(e.openable), body, h.Bool(!e.rmFails), nested)
 	}
 	return h.List(ts)
 }
@@ -197,8 +232,15 @@ func runScenario(r *h.Run, sc scenario, emit bool) observation {
 	r.Eval()
 	fp := footprintOf(ba, sc.Limits.Recursive)
 	declared := declaredByPath(ba, sc.Limits.Recursive)
+	modelled := true
+	if f := sc.Fault; f != nil {
+		// on a reported error nothing is demanded but the high-water marks; "would exceed => refused as too large" is not judged
+		fp.Clean = false
+		// the model knows one kind of fault: the removal of an unzipped nested archive is refused
+		modelled = f.Op == "Remove" && f.Path != "" && f.K == 1 && markRemovalFault(ba, sc.Limits.Recursive, f.Path)
+	}
 	oracle(r, &sc, ba, fp, declared, o)
-	if emit && ba.modelExact(sc.Limits.Recursive) {
+	if emit && modelled && ba.modelExact(sc.Limits.Recursive) {
 		r.Case(coqCase(&sc, ba, o, declared), map[string]any{"scenario": sc, "observed": o})
 	}
 	account(r, &sc, ba, fp, o)
@@ -231,6 +273,12 @@ func main() {
 	for i := 0; i < n; i++ {
 		sc := genScenario(r)
 		runScenario(r, sc, i < emitN)
+	}
+	// fault injection on the extraction's own back-end operations, limits close to what the content needs
+	nf := r.N(400, 4000)
+	for i := 0; i < nf; i++ {
+		sc := genFaultScenario(r)
+		runScenario(r, sc, i < r.N(400, 1000))
 	}
 	r.Finish()
 }
